@@ -42,8 +42,14 @@ func (m *PositionMapper) LSPToByte(pos protocol.Position) int {
 	if line >= len(m.lines) {
 		return len(m.content)
 	}
+	lineText := m.lines[line]
+	// the carriage return of a CRLF line end is part of the terminator: a character offset
+	// past the end of the line clamps in front of it
+	if line < len(m.lines)-1 {
+		lineText = strings.TrimSuffix(lineText, "\r")
+	}
 	byteOffset := m.lineStarts[line]
-	byteOffset += UTF16OffsetToByteOffset(m.lines[line], int(pos.Character))
+	byteOffset += UTF16OffsetToByteOffset(lineText, int(pos.Character))
 	return byteOffset
 }
 
